@@ -1656,7 +1656,8 @@ impl Mint {
                             true => e.1.as_positive(),
                             false => e.1.as_negative(),
                         };
-                        assets.insert(&e.0, &amount.unwrap());
+                        // |-2^64| does not fit into BigNum: saturate instead of failing
+                        assets.insert(&e.0, &amount.unwrap_or(BigNum::max_value()));
                     }
                     assets
                 });
